@@ -32,6 +32,11 @@ JsonPool == {
   JArr(<<O(<<JMem(<<79, 112, 116>>, JNull)>>), S(<<85, 110, 105, 116>>)>>),
   O(<<JMem(<<85, 110, 105, 116>>, JNull)>>), O(<<JMem(<<78, 101, 119>>, N("1")), JMem(<<85, 110, 105, 116>>, JNull)>>), O(<<JMem(<<78, 111>>, N("1"))>>),
   O(<<JMem(<<97>>, N("1")), JMem(<<98>>, N("2"))>>),
+  \* tags of internally / adjacently tagged enums: names, numbers, other values; a tuple in adjacent form
+  O(<<JMem(<<116>>, S(<<66>>))>>), O(<<JMem(<<116>>, N("1"))>>), O(<<JMem(<<116>>, N("0")), JMem(<<120>>, N("5"))>>), O(<<JMem(<<116>>, S(<<65>>)), JMem(<<120>>, N("5"))>>),
+  O(<<JMem(<<116>>, JTrue)>>), O(<<JMem(<<116>>, JNull)>>), JArr(<<N("1")>>), JArr(<<N("2"), JArr(<<N("1"), N("2")>>)>>), JArr(<<S(<<67>>), JArr(<<N("1"), N("2")>>)>>),
+  O(<<JMem(<<99>>, JArr(<<N("1"), N("2")>>)), JMem(<<116>>, S(<<67>>))>>), O(<<JMem(<<99>>, JArr(<<N("1"), N("2")>>)), JMem(<<116>>, N("2"))>>),
+  JArr(<<O(<<JMem(<<116>>, N("1"))>>), O(<<JMem(<<116>>, S(<<66>>))>>)>>), O(<<JMem(<<120>>, N("5"))>>),
   \* maps with keys that are not plain strings on the Rust side (newtype, char, unit variant, integer), flattened structs
   O(<<JMem(<<97, 110, 110>>, JArr(<<N("1"), N("2")>>)), JMem(<<98>>, JArr(<<>>))>>), O(<<JMem(<<49>>, S(<<120>>)), JMem(<<45, 55>>, S(<<121>>))>>),
   O(<<JMem(<<49>>, JTrue)>>), O(<<JMem(<<82, 101, 100>>, N("1")), JMem(<<66, 108, 117, 101>>, N("2"))>>), O(<<JMem(<<105, 100>>, N("1")), JMem(<<107>>, N("2")), JMem(<<106>>, N("3"))>>),
